@@ -1,9 +1,14 @@
 pub mod relay;
+pub mod requests;
 
 use crate::scenario::Scenario;
 
+static AUTH: requests::Requests = requests::Requests { focus: requests::Focus::Auth };
+static RESPONSES: requests::Requests = requests::Requests { focus: requests::Focus::Responses };
+static EGRESS: requests::Requests = requests::Requests { focus: requests::Focus::Egress };
+
 pub fn all() -> Vec<&'static dyn Scenario> {
-    vec![&relay::Relay]
+    vec![&relay::Relay, &AUTH, &RESPONSES, &EGRESS]
 }
 
 pub fn by_name(name: &str) -> Option<&'static dyn Scenario> {
